@@ -218,6 +218,141 @@ def a_sowCombosShuffleDefault(T):
     raise Untranslatable('default of shuffle: ' + ast.unparse(d))
 
 
+# ---------------------------------------------------------------- effect skeletons of the reap methods
+from pysk2lean import SkSpec, translate_sk
+
+_REAP_ENV = {'wait': boo('wait'), 'clean_up': obool('cleanUp'), 'allow_incomplete': boo('allowIncomplete'),
+             'to_df': boo('toDf'), 'sync': boo('sync'), 'parse': boo('parse'),
+             'harvester is None': boo('false'), 'sampler is None': boo('false')}
+
+
+def _call_named(st, name):
+    """the Call node if `st` is `name(...)` as a statement or the right-hand side of an assignment"""
+    v = st.value if isinstance(st, (ast.Expr, ast.Assign)) else None
+    if isinstance(v, ast.Call) and ast.unparse(v.func) == name: return v
+    return None
+
+
+def _targets(st):
+    if isinstance(st, ast.Assign) and len(st.targets) == 1:
+        t = st.targets[0]
+        return [ast.unparse(x) for x in t.elts] if isinstance(t, ast.Tuple) else [ast.unparse(t)]
+    return []
+
+
+def _opt_bool(tr, e):
+    """an expression handed on as an optional bool (`clean_up=...`)"""
+    if isinstance(e, ast.Constant) and e.value is None: return '(none : Option Bool)'
+    t, ty = tr.expr(e)
+    if ty == 'obool': return t
+    if ty == 'bool': return f'(some {t} : Option Bool)'
+    raise Untranslatable('optional bool expected: ' + ast.unparse(e))
+
+
+def _plain_bool(tr, e):
+    t, ty = tr.expr(e)
+    if ty != 'bool': raise Untranslatable('bool expected: ' + ast.unparse(e))
+    return t
+
+
+def _kw(call, name, default=None):
+    for k in call.keywords:
+        if k.arg == name: return k.value
+    if default is not None: return default
+    raise Untranslatable(f'keyword {name} not passed in ' + ast.unparse(call)[:60])
+
+
+def _h_check_ready(st, tr, env):
+    c = _call_named(st, 'check_ready_to_reap')
+    if [ast.unparse(a) for a in c.args] != ['self', 'allow_incomplete', 'wait'] or c.keywords:
+        raise Untranslatable('check_ready_to_reap arguments')
+    return [('eff', '.checkReady', None)]
+
+
+def _h_calc(st, tr, env):
+    c = _call_named(st, 'calc_clean_up_default_res')
+    if len(c.args) != 3 or c.keywords or ast.unparse(c.args[0]) != 'self' or _targets(st) != ['clean_up', 'default_result']:
+        raise Untranslatable('calc_clean_up_default_res call shape')
+    cu, ai = _opt_bool(tr, c.args[1]), _plain_bool(tr, c.args[2])
+    # the stand-in result is read off a finished batch exactly when one is asked for: that read can fail
+    return [('pure', f'calcCleanUp {cu} {ai}', [('clean_up', 'cleanUp', 'obool'), ('default_result', 'defaultResult', 'bool')]),
+            ('eff', '.allNan', 'defaultResult')]
+
+
+def _h_load_info(st, tr, env):
+    return [('eff', '.loadInfo', None)] + [('let', t, '()', 'tok') for t in _targets(st) if t.isidentifier()]
+
+
+def _has_load_info(st):
+    return isinstance(st, ast.Assign) and any(isinstance(n, ast.Call) and ast.unparse(n.func) == 'self.load_info' for n in ast.walk(st.value))
+
+
+def _h_gather(st, tr, env):
+    c = st.value
+    if ast.unparse(_kw(c, 'fn')) != 'reap_fn': raise Untranslatable('the runner is not driven by the Reaper')
+    effs = [('eff', '.gather', None)]
+    if ast.unparse(c.func) == 'combo_runner_to_ds': effs.append(('eff', '.label', None))
+    return effs + [('let', t, '()', 'tok') for t in _targets(st)]
+
+
+def _is_gather(st):
+    return isinstance(st, ast.Assign) and isinstance(st.value, ast.Call) and ast.unparse(st.value.func) in ('combo_runner_core', 'combo_runner_to_ds')
+
+
+def _is_label_prep(st):
+    """`if parse: constants = parse_constants(constants); attrs = parse_attrs(attrs)`: prepares labels, no effect"""
+    return isinstance(st, ast.If) and ast.unparse(st.test) == 'parse' and not st.orelse and \
+        all(isinstance(b, ast.Assign) and _targets(b)[0] in ('constants', 'attrs') for b in st.body)
+
+
+def _is_set_last(st):
+    if isinstance(st, ast.Assign) and any('._last_' in t for t in _targets(st)): return True
+    return isinstance(st, ast.If) and st.body and st.orelse and all(
+        isinstance(b, ast.Assign) and any('._last_' in t for t in _targets(b)) for b in list(st.body) + list(st.orelse))
+
+
+def _h_inner(target_sk, params):
+    """a call of another reap method on the same crop: run its skeleton with the arguments as passed"""
+    def h(st, tr, env):
+        c = st.value
+        args = []
+        for name, kind, dflt in params:
+            e = _kw(c, name, dflt)
+            args.append(_opt_bool(tr, e) if kind == 'obool' else _plain_bool(tr, e))
+        return [('call', f'{target_sk} fails ' + ' '.join(args) + f' {env["$trace"][0]}')] + \
+               [('let', t, '()', 'tok') for t in _targets(st)]
+    return h
+
+
+_F, _N = ast.Constant(False), ast.Constant(None)
+_REAPER = (lambda ce: isinstance(ce, ast.Call) and ast.unparse(ce.func) == 'Reaper',
+           lambda s, tr, env: [], lambda s, tr, env: [('eff', '.reaperExit', None)])
+_COMMON = [
+    (lambda st: _call_named(st, 'check_ready_to_reap') is not None, _h_check_ready),
+    (lambda st: _call_named(st, 'calc_clean_up_default_res') is not None, _h_calc),
+    (_has_load_info, _h_load_info),
+    (_is_gather, _h_gather),
+    (_is_label_prep, lambda st, tr, env: []),
+    (_is_set_last, lambda st, tr, env: [('eff', '.setLast', None)]),
+    (lambda st: _call_named(st, 'self.delete_all') is not None, lambda st, tr, env: [('eff', '.deleteAll', None)]),
+    (lambda st: isinstance(st, ast.Expr) and isinstance(st.value, ast.Call) and ast.unparse(st.value.func).endswith(('.add_ds', '.add_df')),
+     lambda st, tr, env: [('eff', '.sync', None)]),
+    (lambda st: isinstance(st, ast.Assign) and _call_named(st, 'self.reap_combos_to_ds') is not None,
+     _h_inner('reapCombosToDsSk', [('wait', 'bool', _F), ('clean_up', 'obool', _N), ('allow_incomplete', 'bool', _F),
+                                   ('to_df', 'bool', _F), ('parse', 'bool', ast.Constant(True))])),
+    (lambda st: isinstance(st, ast.Assign) and _call_named(st, 'self.reap_runner') is not None,
+     _h_inner('reapRunnerSk', [('wait', 'bool', _F), ('clean_up', 'obool', _N), ('allow_incomplete', 'bool', _F), ('to_df', 'bool', _F)])),
+]
+
+
+def _sk(meth):
+    def a(T):
+        return translate_sk(SkSpec('cropping', ['Crop', meth], _REAP_ENV, handlers=_COMMON, withs=[_REAPER]), T, find)
+    return a
+
+
+_SK = '(fails : Eff → Bool)'
+_SKR = '(trace : List Eff) : List Eff × Option PyErr'
 PYERR = 'Except PyErr'
 ANCHORS = [
     ('chooseBatchSettings',
@@ -238,5 +373,10 @@ ANCHORS = [
     ('calcCleanUp', '(cleanUp : Option Bool) (allowIncomplete : Bool) : ' f'{PYERR} (Option Bool × Bool)', a_calcCleanUp),
     ('checkReady', '(allowIncomplete wait isReady : Bool) : ' f'{PYERR} Unit', a_checkReady),
     ('reaperUseDefault', '(hasDefault wait isFile : Bool) : Bool', a_reaperUseDefault),
+    ('reapCombosSk', f'{_SK} (wait : Bool) (cleanUp : Option Bool) (allowIncomplete : Bool) {_SKR}', _sk('reap_combos')),
+    ('reapCombosToDsSk', f'{_SK} (wait : Bool) (cleanUp : Option Bool) (allowIncomplete toDf parse : Bool) {_SKR}', _sk('reap_combos_to_ds')),
+    ('reapRunnerSk', f'{_SK} (wait : Bool) (cleanUp : Option Bool) (allowIncomplete toDf : Bool) {_SKR}', _sk('reap_runner')),
+    ('reapHarvestSk', f'{_SK} (wait sync : Bool) (cleanUp : Option Bool) (allowIncomplete : Bool) {_SKR}', _sk('reap_harvest')),
+    ('reapSamplesSk', f'{_SK} (wait sync : Bool) (cleanUp : Option Bool) (allowIncomplete : Bool) {_SKR}', _sk('reap_samples')),
     ('autoAddExt', '(anyExtIn : Bool) (fileName engineExt : String) : ' f'{PYERR} String', a_autoAddExt),
 ]
